@@ -1,17 +1,17 @@
 SPECIFICATION Spec
 CONSTANTS
-  Reqs = {"r1", "r2"}
-  QCap = 1
+  Reqs = {"r1", "a2"}
+  QCap = 2
   FixHandoff = TRUE
   FixSend = TRUE
   FixReader = TRUE
-  Banned = {"r2"}
-  Asking = {}
+  Banned = {}
+  Asking = {"a2"}
   AskAnswersInHand = TRUE
-  BufCap = 3
+  BufCap = 1
   FixFlushOnStop = TRUE
   MaxResets = 1
-  WithStop = TRUE
+  WithStop = FALSE
   Det = FALSE
 INVARIANTS TypeOK AtMostOnce NoLostRequest NoStuckSender PairingFIFO
 PROPERTIES Answered QuitLeadsToDone StopReturns
